@@ -88,17 +88,6 @@ End Drain.
 
 (** ---- list helpers ---- *)
 
-Lemma map_eq_pointwise {A B C} (f : A -> C) (g : B -> C) :
-  forall (l1 : list A) (l2 : list B), length l1 = length l2 ->
-  (forall i a b, nth_error l1 i = Some a -> nth_error l2 i = Some b -> f a = g b) ->
-  map f l1 = map g l2.
-Proof.
-  induction l1 as [|a l1 IH]; intros [|b l2] Hl H; cbn in Hl; try discriminate; [reflexivity|].
-  cbn. f_equal.
-  - apply (H 0); reflexivity.
-  - apply IH; [lia|]. intros i a' b' Ha Hb. apply (H (S i)); assumption.
-Qed.
-
 Lemma existsb_false_forall {A} (f : A -> bool) l : (forall x, In x l -> f x = false) -> existsb f l = false.
 Proof.
   induction l as [|h t IH]; intros H; cbn; [reflexivity|].
